@@ -260,6 +260,19 @@ exp(N, "harmless", "two header branches merged with `or`",
     "        if line.strip() == \"[pycalver]\":\n            is_config_section = True\n        elif line.strip() == \"[bumpver]\":\n            is_config_section = True",
     "        if line.strip() == \"[pycalver]\" or line.strip() == \"[bumpver]\":\n            is_config_section = True")
 
+exp(N, "harmless", "seeded/_harmless-refactor: the three header tests as one membership test",
+    "        if line.strip() == \"[pycalver]\":\n            is_config_section = True\n        elif line.strip() == \"[bumpver]\":\n            is_config_section = True\n        elif line.strip() == \"[tool.bumpver]\":\n            is_config_section = True",
+    "        if line.strip() in (\"[pycalver]\", \"[bumpver]\", \"[tool.bumpver]\"):\n            is_config_section = True")
+exp(N, "harmless", "membership test against a list, stripped line in a local",
+    "        if line.strip() == \"[pycalver]\":\n            is_config_section = True\n        elif line.strip() == \"[bumpver]\":\n            is_config_section = True\n        elif line.strip() == \"[tool.bumpver]\":\n            is_config_section = True",
+    "        header = line.strip()\n        if header in [\"[bumpver]\", \"[pycalver]\", \"[tool.bumpver]\"]:\n            is_config_section = True")
+exp(N, "break", "membership test that forgets [tool.bumpver]",
+    "        if line.strip() == \"[pycalver]\":\n            is_config_section = True\n        elif line.strip() == \"[bumpver]\":\n            is_config_section = True\n        elif line.strip() == \"[tool.bumpver]\":\n            is_config_section = True",
+    "        if line.strip() in (\"[pycalver]\", \"[bumpver]\"):\n            is_config_section = True")
+exp(N, "break", "membership test on the unstripped line",
+    "        if line.strip() == \"[pycalver]\":\n            is_config_section = True\n        elif line.strip() == \"[bumpver]\":\n            is_config_section = True\n        elif line.strip() == \"[tool.bumpver]\":\n            is_config_section = True",
+    "        if line in (\"[pycalver]\", \"[bumpver]\", \"[tool.bumpver]\"):\n            is_config_section = True")
+
 # ---- _pick_config_filepath ---------------------------------------------------------------------------------
 N = "pickConfigFile"
 exp(N, "break", "candidate order: bumpver.toml before pycalver.toml",
